@@ -33,10 +33,16 @@ def main():
     skip_root = "--skip-root" in sys.argv or "--full" not in sys.argv
     name = os.path.basename(src)
     out = f"/verif/seeded/{prop}-{name}"
+    if os.path.dirname(os.path.abspath(src)) == "/verif/seeded":
+        out, name = os.path.abspath(src), name.split("-", 1)[1]
     os.makedirs(out, exist_ok=True)
     demos = [f for f in os.listdir(src) if f.endswith("_test.go")]
     for f in ["patch.diff", "README.md"] + demos:
-        shutil.copy(os.path.join(src, f), os.path.join(out, f if f != "README.md" else "README.seeder.md"))
+        if os.path.abspath(src) != os.path.abspath(out) and os.path.exists(os.path.join(src, f)):
+            shutil.copy(os.path.join(src, f), os.path.join(out, f if f != "README.md" else "README.seeder.md"))
+    also = []
+    if "--also" in sys.argv:
+        also = sys.argv[sys.argv.index("--also") + 1].split(",")
     wt = f"/var/tmp/wt-seedconfirm-{os.getpid()}"
     meta = dict(property=prop, name=name, needs_to_manifest=needs, demo_files=demos, demo_dir=dest, ran=[])
     rc, o, _ = sh(f"git -C /repo worktree add -q --detach {wt} HEAD")
@@ -80,6 +86,10 @@ def main():
         crc, co, cdt = sh(f"VERIF_REPO={wt} timeout 3300 ./check {prop} --tier quick", cwd="/verif", timeout=3400)
         sigs = sorted(set(re.findall(r"sig=(\S+)", co)))
         meta["check_quick"] = dict(rc=crc, wall=round(cdt), signatures=sigs[:8], summary=[l for l in co.splitlines() if l.startswith("[check] " + prop)][-1:])
+        meta["also_checked"] = {}
+        for other in also:
+            orc, oo, odt = sh(f"VERIF_REPO={wt} timeout 3300 ./check {other} --tier quick", cwd="/verif", timeout=3400)
+            meta["also_checked"][other] = dict(rc=orc, wall=round(odt), signatures=sorted(set(re.findall(r"sig=(\S+)", oo)))[:8])
         # demo without the patch
         sh("git checkout -- .", cwd=wt)
         for d in demos:
@@ -88,6 +98,7 @@ def main():
         meta["demo_without_change"] = dict(rc=rc2, wall=round(dt2), tail=o2[-300:])
         meta["confirmed"] = bool(meta["existing_tests_pass"] and rc1 != 0 and rc2 == 0)
         meta["caught_by_quick_check"] = crc == 1
+        meta["caught_by"] = [p for p, r in [(prop, crc)] + [(k, v["rc"]) for k, v in meta["also_checked"].items()] if r == 1]
     finally:
         sh(f"git -C /repo worktree remove --force {wt}")
     return finish(out, meta)
